@@ -51,6 +51,10 @@
 (*   RefreshClosesTunnels - a tcp-dynamic listener looks at the routing    *)
 (*                     table every `refresh`; while the route of a tunnel  *)
 (*                     exists a refresh does nothing to it                 *)
+(*   WriteTimeoutArmsRead - on a listener with a write timeout (wt=) the   *)
+(*                     deadline of a write to the client also ends a later *)
+(*                     READ from a client that stays silent for longer     *)
+(*                     (wt= limits writes; only rt= has a say about reads) *)
 (* The design: a failed direction only ends itself; what the other side    *)
 (* sent before it finished cleanly still reaches its peer.                 *)
 (*                                                                         *)
@@ -71,6 +75,7 @@ CONSTANTS
     StaleTargetOptions,   \* deviation (defect class): after a refused dial the next instance is dialled with the failed one's options
     DialDeadlineStays,    \* deviation (defect class): a deadline armed while the connection was set up (proxy.dialtimeout) stays on the upstream connection
     RefreshClosesTunnels, \* deviation (defect class): a refresh of the tcp-dynamic listeners ends tunnels whose route still exists
+    WriteTimeoutArmsRead, \* deviation (defect class): the listener's write timeout also expires reads from a silent client
     ReadTimeoutArmsWrite, \* deviation (defect class): the listener's read timeout also expires writes to the client
     PeekN              \* bytes the SNI path peeks before it knows the hello length
 
@@ -129,7 +134,12 @@ UPayload == Len(uRecv) - Len(Hdr)
 CAlive == cState \notin {"closed", "reset"}
 UTriggered == IF sc.trig = -1 THEN uGotEOF ELSE IF sc.trig = -2 THEN ~CAlive ELSE UPayload >= sc.trig
 \* a websocket client speaks only after it has the handshake response
-CGate == sc.kind = "ws" => cRecv # <<>>
+\* sc.wt = 1: a session with a pause.  The client sends up to the point at which the upstream replies,
+\* waits until it has the complete reply, stays silent for longer than the listener's write timeout,
+\* and only then goes on (more data and / or its FIN).
+CSent == Len(FlatN(CSegs, cIdx))
+CPauseOver == (sc.wt = 1 /\ CSent >= sc.trig) => cRecv = ExpC
+CGate == (sc.kind = "ws" => cRecv # <<>>) /\ CPauseOver
 
 -----------------------------------------------------------------------------
 Init == /\ sc \in Scenarios
@@ -296,6 +306,16 @@ CUTimeout == /\ ppc = "copy" /\ sc.rt = 1 /\ cpCU.pc = "read"
              /\ outW' = TRUE
              /\ UNCHANGED <<sc, cli, ups, c2p, u2p, p2c, ppc, bio, hbuf, cpUC, inW, firstFin>>
 
+\* Listener configuration (proxy.addr option wt=): a write timeout on the client connection.  It limits
+\* how long a write TO the client may take.  The design: it has no say about reads - a client that is
+\* silent for longer than wt (after the proxy has written to it) is still listened to.
+CUWtExpired == /\ ppc = "copy" /\ WriteTimeoutArmsRead /\ sc.wt = 1 /\ cpCU.pc = "read"
+               /\ c2p = <<>> /\ bio = <<>> /\ (cRecv # <<>> \/ p2c # <<>>)
+               /\ cpCU' = Cp("failed", <<>>, FALSE)
+               /\ p2u' = IF ~outW /\ uState # "closed" THEN Append(p2u, EOFm) ELSE p2u
+               /\ outW' = TRUE
+               /\ UNCHANGED <<sc, cli, ups, c2p, u2p, p2c, ppc, bio, hbuf, cpUC, inW, firstFin>>
+
 \* a Read may return the last data together with the EOF that follows it (a TLS record and the
 \* close_notify behind it; any io.Reader may): e = TRUE
 WithEOF(q, k) == IF k = LeadLen(q) /\ k < Len(q) /\ q[k + 1] = EOFm THEN {FALSE, TRUE} ELSE {FALSE}
@@ -397,7 +417,7 @@ Terminated == ppc = "done" /\ ~CAlive /\ (uState = "closed" \/ ~uConn)
 Next == \/ CWrite \/ CFin \/ CRead \/ CCloseAfterEOF \/ CAbort
         \/ UWrite \/ UFin \/ URead \/ UCloseAfterEOF
         \/ Peek \/ ReadHello \/ Dial \/ DialRefused \/ ProxyHdr \/ ReplayHello \/ Ws101
-        \/ CURead \/ CUWrite \/ CUEof \/ CUTimeout \/ UCReadExpired \/ Refresh \/ UCRead \/ UCWrite \/ UCEof \/ Finish
+        \/ CURead \/ CUWrite \/ CUEof \/ CUTimeout \/ CUWtExpired \/ UCReadExpired \/ Refresh \/ UCRead \/ UCWrite \/ UCEof \/ Finish
         \/ (Terminated /\ UNCHANGED vars)          \* so that TLC's deadlock check means "stuck before the end"
 
 Spec == Init /\ [][Next]_vars
